@@ -469,6 +469,8 @@ def random_terms(rng, descs, n_terms, respect_qn=False, total_qn=None, max_body=
     def rfactor():
         if factor_scale == "wide":
             f = 10.0 ** rng.uniform(-6, 6)
+        elif factor_scale == "tiny":
+            f = 10.0 ** rng.uniform(-19, -12)
         else:
             f = rng.uniform(0.5, 2.0)
         return float(f if rng.random() < 0.5 else -f)
